@@ -94,3 +94,8 @@ crate::proof!{ #[kani::unwind(7)] fn c01_t_l1_cmsgr3_exception_compact() { l1::l
 crate::proof!{ #[kani::unwind(7)] fn c01_t_l1_cmsgr4_oneway_compact() { l1::l1_cmsg_read::<4, 4>() } }
 crate::proof!{ #[kani::unwind(7)] fn c01_q_l1_cmsgr5_call_compact() { l1::l1_cmsg_read::<5, 1>() } }
 crate::proof!{ #[kani::unwind(3)] fn c03_q_l1_type_tables() { l1::l1_type_tables() } }
+
+crate::proof!{ #[kani::unwind(3)] fn c03_q_l1_bool_any_byte_bin() { l1::l1_bool_any_byte::<PBin>() } }
+crate::proof!{ #[kani::unwind(3)] fn c03_q_l1_bool_any_byte_unchecked() { l1::l1_bool_any_byte::<PUnchecked>() } }
+crate::proof!{ #[kani::unwind(3)] fn c03_q_l1_bool_any_byte_compact() { l1::l1_bool_any_byte::<PCompact>() } }
+crate::proof!{ #[kani::unwind(5)] fn c03_q_l1_compact_field_alt_forms() { l1::l1_compact_field_alt_forms() } }
